@@ -37,7 +37,8 @@ CHECKS.update({
                 technique="contract-based deductive verification (pyvc VCs with loop invariants, z3) for the label bookkeeping; runtime contracts on the real methods as bounded stand-in",
                 note=OTHER_NOTE),
     "C04": dict(cat="other", ref="DESIGN §8 C04, App. A.3",
-                text="canonicalise's sweep/centre/direction discipline proved for all chain lengths and stop sites from the current source (pyvc: loop invariant, "
+                text="Variational compression (Engine S): with the renormalised-basis update recorded, every local tensor handed to it equals mask * K^H (O psi) for the frames K of the guess at that moment, one update per site in sweep order, each posed in the guess the previous one produced; state and operator unchanged. "
+                     "canonicalise's sweep/centre/direction discipline proved for all chain lengths and stop sites from the current source (pyvc: loop invariant, "
                      "inlined iter_idx_list/_switch_direction, _push_cano by contract); Engine S kernel-stub mode: canonicalise / ensure_* / partial sweeps / lossless compress "
                      "around trivially factorised blocks leave the represented object and the labels unchanged for all tensor values (states, sums, operator images, operators, "
                      "density operators; 2000+ obligations); which entry of a per-bond limit list applies to the bond cut at a site (mechanical "
